@@ -1,3 +1,4 @@
+import PcfgVerif.Generated.ProcessState
 import PcfgVerif.Lemmas.DetectWebsiteSpec
 import PcfgVerif.Model.Scorer
 import PcfgVerif.Generated.CliOptions
@@ -148,6 +149,14 @@ example :
     let w2 := "site.com-my.company".toList.map Char.toNat
     Detect.tldOccurrence U w1 tld (w1.length + 1) (Detect.findSub w1 tld) = some 13 ∧
     Detect.tldOccurrence U w2 tld (w2.length + 1) (Detect.findSub w2 tld) = some 4 := by
+  decide
+
+/-- **nothing outlives a call except the objects a caller holds** (regenerated from the four library packages): no module-level or
+class-level mutable container, no cache decorator or cache call (`functools.lru_cache`, `cache`), no mutable or computed default
+argument and no `global` statement anywhere in `lib_guesser`, `lib_trainer`, `lib_scorer`, `lib_princeling`.  The models of this file are
+functions of the objects handed to the code (grammar, detector, tables, memo table); this is the fact that lets them be: an answer cannot
+depend on what another object, an earlier ruleset in the same process or the other thread did -/
+theorem C13_no_process_wide_state : Generated.ProcessState.processWideState = [] := by
   decide
 
 end Pcfg.C13
